@@ -1,6 +1,10 @@
 package rules
 
 import (
+	"fmt"
+	"sort"
+	"strings"
+
 	"gmqttverif/internal/core"
 )
 
@@ -69,9 +73,69 @@ func c15Regions() []region {
 }
 
 func c15(c *core.Ctx) {
-	c.Explain("C15 (concurrency): decided statically — R1 guarded-by regions: every access to the listed mutable state happens with its lock held on every path (must-hold lockset, interprocedural by requirement propagation to all callers / closure use sites).")
+	c.Explain("C15 (concurrency): decided statically — R1 guarded-by regions: every access to the listed mutable state (session tables, statistics, subscription and retained tries, both queues, packet id limiter, receive quota, session store, federation tables) happens with its lock held on every path (must-hold lockset; 'returns holding the lock when err == nil' summaries; requirement propagated to all callers and to every use site of a closure; writes need the write lock); R2 the lock-order graph between lock classes (transitive through calls, callbacks instantiated per call site, locks a callee holds around a callback included) has no cycle, no class is re-acquired while held, and no connection life-cycle wait happens under srv.mu; R3 a select case that receives from a channel that gets closed leaves its loop; R4 every goroutine that calls WaitGroup.Done is counted by an Add that precedes its start and reaches Done on every exit, Add totals match; R5 struct-field channels are closed only at the confirmed once-only sites; R6 the per-connection and stream goroutines contain panics (deferred recover into setError); R7 Stop runs its body once, waits for every connection's closed channel before unloading plugins and firing OnStop, closes all listeners; serve joins its goroutines and closed is signalled after unregistration.")
+	c.NotDecided("races on state outside the listed regions, bounded response time, instance-level inversions inside one lock class")
+	c.Assume("callbacks run synchronously inside the call they are passed to (true for every Iterate of this repository)")
 	la := newLockA(c)
 	for _, rg := range c15Regions() {
 		la.checkRegion("C15.R1", rg)
+	}
+	c15LockOrder(c, la)
+	c15Goroutines(c, la)
+	// R8: the per-connection pipeline: only the confirmed senders/receivers, and every producer gives up on close
+	pipelineInventory(c, "C15.R8")
+}
+
+func c15LockOrder(c *core.Ctx, la *lockA) {
+	lo := newLockOrder(la)
+	edges := lo.edges()
+	var show []string
+	for _, e := range edges {
+		show = append(show, e.From+" -> "+e.To)
+	}
+	c.Extra("lock_order_edges", show)
+	c.Floor("C15.R2", len(edges), 10)
+	// (i) cycles between distinct classes
+	cycles := findCycles(edges)
+	if len(cycles) == 0 {
+		c.OK("C15.R2", "lock-order|cycle", "-", fmt.Sprintf("%d order edges between lock classes, no cycle", len(edges)))
+	}
+	for _, cy := range cycles {
+		var names []string
+		var wit []string
+		for _, e := range cy {
+			names = append(names, baseClass(e.From))
+			wit = append(wit, "["+e.From+" -> "+e.To+"]")
+			wit = append(wit, e.Witness...)
+		}
+		sort.Strings(names)
+		c.Violation("C15.R2", "lock-order|cycle|"+strings.Join(names, ","), "-", "lock-order cycle: "+strings.Join(names, " -> ")+" -> (back): two goroutines taking these locks in opposite order deadlock", wit...)
+	}
+	// (ii) re-acquisition of the same class while it is held
+	nSelf := 0
+	for _, e := range edges {
+		if strings.HasPrefix(e.To, "wait:") || baseClass(e.From) != baseClass(e.To) {
+			continue
+		}
+		nSelf++
+		what := "is re-acquired while it is already held (self-deadlock on a non-reentrant mutex)"
+		if strings.HasSuffix(e.From, "(R)") && strings.HasSuffix(e.To, "(R)") {
+			what = "is read-locked again while a read lock is held: with a writer waiting in between both block forever"
+		}
+		c.Violation("C15.R2", "lock-order|reacquire|"+baseClass(e.From), "-", baseClass(e.From)+" "+what, e.Witness...)
+	}
+	if nSelf == 0 {
+		c.OK("C15.R2", "lock-order|reacquire", "-", "no lock class is acquired while it is already held")
+	}
+	// (iii) life-cycle waits under the server lock
+	nWait := 0
+	for _, e := range edges {
+		if baseClass(e.From) == "server.server.mu" && strings.HasPrefix(e.To, "wait:") {
+			nWait++
+			c.Violation("C15.R2", "server.mu|"+e.To, "-", "a connection life-cycle wait ("+strings.TrimPrefix(e.To, "wait:")+") can happen while srv.mu is held: the connection being waited for needs srv.mu to finish", e.Witness...)
+		}
+	}
+	if nWait == 0 {
+		c.OK("C15.R2", "server.mu|no-lifecycle-wait", "-", "nothing waits for a connection's life cycle while srv.mu is held")
 	}
 }
